@@ -66,6 +66,8 @@ structure RegOK (G : GT) (w : World) : Prop where
   npFresh : ∀ p, G.np = some p → ∀ i : Nat, w.pubReg.slots[i]? ≠ some (some p)
   nsFresh : ∀ s, G.ns = some s → ∀ (i : Nat) (e : SubEntry),
     w.subReg.slots[i]? = some (some e) → e.sid ≠ s
+  npAlive : ∀ p, G.np = some p → ∃ P, getP w p = some P ∧ P.alive = true
+  nsAlive : ∀ s, G.ns = some s → ∃ S, getS w s = some S ∧ S.alive = true
   nodup : w.conns.Pairwise fun a b => ¬ (a.pid = b.pid ∧ a.sid = b.sid)
 
 structure PubTop (G : GT) (w : World) (p : Nat) (P : Pub) : Prop where
@@ -97,6 +99,9 @@ structure SubTop (G : GT) (w : World) (s : Nat) (S : Sub) : Prop where
       (P.alive = true → S.snap[j]? = some (some p))
   snap : ∀ (j p : Nat), S.snap[j]? = some (some p) →
     ∃ P, getP w p = some P ∧ P.slot = j ∧ PReg w p P ∧ G.np ≠ some p
+  tbrNodup : S.tbr.Nodup
+  tbr : ∀ k ∈ S.tbr, (∃ p, abs S.storage k = some p) ∧
+    ∀ j : Nat, S.conns[j]? = some (some k) → G.hole = some (s, j)
 
 structure ConnTop (cn : Conn) (P : Pub) (S : Sub) : Prop where
   att : cn.sAtt = true ∨ cn.rAtt = true
@@ -134,9 +139,9 @@ def flight (cn : Conn) (S : Sub) : List Nat := cn.sub.map (·.1) ++ cn.comp ++ h
 
 structure ConnAcc (cfg : Cfg) (cn : Conn) (P : Pub) (S : Sub) : Prop where
   usedLen : cn.used.length = P.n
-  subCap : cn.sub.length ≤ cn.cap
+  subCap : cn.sub.length ≤ max cn.cap 1
   borrowMax : cn.borrow ≤ cfg.borrowMax
-  total : cn.sub.length + cn.borrow + cn.comp.length ≤ cn.cap + cfg.borrowMax
+  total : cn.sub.length + cn.borrow + cn.comp.length ≤ max cn.cap 1 + cfg.borrowMax
   borrow : cn.borrow = (heldOf S cn.pid).length
   nodup : cn.sAtt = true → (flight cn S).Nodup
   used : cn.sAtt = true → ∀ c, cn.used.getD c false = true ↔ c ∈ flight cn S
@@ -148,7 +153,8 @@ structure AccInv (A : GA) (w : World) : Prop where
   pubs : ∀ p P, getP w p = some P →
     (P.ex = true → PubAcc A w p P) ∧ (P.ex = false → P.loans = [])
   subs : ∀ s S, getS w s = some S →
-    (S.ex = false → S.held = []) ∧ ∀ h ∈ S.held, abs S.storage h.key = some h.pid
+    (S.ex = false → S.held = []) ∧ (∀ h ∈ S.held, abs S.storage h.key = some h.pid) ∧
+    (S.alive = true → ∀ h ∈ S.held, ∃ P, getP w h.pid = some P ∧ P.payload.getD h.chunk 0 = h.tag)
   conns : ∀ p s cn, getC w p s = some cn → ∀ P S, getP w p = some P → getS w s = some S →
     ConnAcc w.cfg cn P S
 
@@ -160,8 +166,9 @@ structure Inv (G : GT) (A : GA) (w : World) : Prop where
 
 def ptop (P : Pub) : Bool × Bool × Nat × List (Option Nat) × List (Option SubEntry) :=
   (P.alive, P.ex, P.slot, P.conns, P.snap)
-def stop (S : Sub) : Bool × Bool × Nat × List (Option Nat) × List (Option Nat) × SlotMap.St Nat :=
-  (S.alive, S.ex, S.slot, S.conns, S.snap, S.storage)
+def stop (S : Sub) :
+    Bool × Bool × Nat × List (Option Nat) × List (Option Nat) × SlotMap.St Nat × List Nat :=
+  (S.alive, S.ex, S.slot, S.conns, S.snap, S.storage, S.tbr)
 def ctop (c : Conn) : Nat × Nat × Bool × Bool := (c.pid, c.sid, c.sAtt, c.rAtt)
 
 /-- `w'` has the same topology as `w` -/
